@@ -435,6 +435,71 @@ def prog_names(arg):
     return out
 
 
+def prog_shapes(arg):
+    """Call shapes and result identity of the lookup entry points: every
+    parameter given by position and by keyword (the documented names), and
+    what a caller sees who holds on to a result, changes it in place and asks
+    again."""
+    from zope.interface import Interface, implementer, providedBy
+    from zope.interface.interface import InterfaceClass
+    from zope.interface.adapter import AdapterRegistry, VerifyingAdapterRegistry
+    flavour, warm = arg
+    newworld()
+    I0 = InterfaceClass('I0', (Interface,), {'__module__': wmod()})
+    I1 = InterfaceClass('I1', (Interface,), {'__module__': wmod()})
+    A = implementer(I0)(type('A', (), {}))
+    ob = A()
+    cls = AdapterRegistry if flavour == 'adapter' else VerifyingAdapterRegistry
+    base = cls()
+    reg = cls((base,))
+    reg.register([I0], I1, '', lambda o: ('adapted', ''))
+    base.register([I0], I1, 'n', lambda o: ('adapted', 'n'))
+    reg.register([I0, I0], I1, '', lambda o, p: ('adapted2', ''))
+    for t in ('s1', 's2', 's3'):
+        reg.subscribe([I0], I1, (lambda t: (lambda o: t))(t))
+    spec = providedBy(ob)
+    out = []
+    if warm:
+        reg.lookup([spec], I1, '')
+        reg.lookupAll([spec], I1)
+        reg.subscriptions([spec], I1)
+    fac = lambda f: f(ob) if callable(f) else f
+    _call(out, 'lookup/kw', lambda: fac(reg.lookup(required=[spec], provided=I1, name='', default='D')))
+    _call(out, 'lookup/kw2', lambda: fac(reg.lookup([spec], provided=I1, name='n')))
+    _call(out, 'lookup/kw3', lambda: fac(reg.lookup([spec], I1, default='D', name='zz')))
+    _call(out, 'lookup1/kw', lambda: fac(reg.lookup1(required=spec, provided=I1, name='', default='D')))
+    _call(out, 'lookup1/kw2', lambda: fac(reg.lookup1(spec, provided=I1, name='n')))
+    _call(out, 'lookupAll/kw', lambda: sorted(n for n, _ in reg.lookupAll(required=[spec], provided=I1)))
+    _call(out, 'lookupAll/kw2', lambda: sorted(n for n, _ in reg.lookupAll([spec], provided=I1)))
+    _call(out, 'subscriptions/kw', lambda: len(reg.subscriptions(required=[spec], provided=I1)))
+    _call(out, 'subscriptions/kw2', lambda: len(reg.subscriptions([spec], provided=I1)))
+    _call(out, 'queryAdapter/kw', lambda: reg.queryAdapter(object=ob, provided=I1, name='', default='D'))
+    _call(out, 'queryAdapter/kw2', lambda: reg.queryAdapter(ob, provided=I1, name='n'))
+    _call(out, 'queryAdapter/kw3', lambda: reg.queryAdapter(ob, I1, default='D', name='zz'))
+    _call(out, 'queryAdapter/kw4', lambda: reg.queryAdapter(provided=I1, object=ob))
+    _call(out, 'adapter_hook/kw', lambda: reg.adapter_hook(provided=I1, object=ob, name='', default='D'))
+    _call(out, 'adapter_hook/kw2', lambda: reg.adapter_hook(I1, object=ob, name='n'))
+    _call(out, 'adapter_hook/kw3', lambda: reg.adapter_hook(object=ob, provided=I1))
+    _call(out, 'queryMultiAdapter/kw', lambda: reg.queryMultiAdapter(objects=(ob, ob), provided=I1, name='', default='D'))
+    _call(out, 'subscribers/kw', lambda: sorted(reg.subscribers(objects=(ob,), provided=I1)))
+    _call(out, 'names/kw', lambda: sorted(reg.names(required=[spec], provided=I1)))
+    # result identity, and in-place changes of a result by its caller
+    s1 = reg.subscriptions([spec], I1)
+    s2 = reg.subscriptions([spec], I1)
+    out.append(('subscriptions/same-object-twice', s1 is s2, type(s1).__name__))
+    if isinstance(s1, list):
+        s1.reverse()
+        s1.pop()
+    _call(out, 'subscriptions/after-caller-changed-its-result', lambda: [f(ob) for f in reg.subscriptions([spec], I1)])
+    _call(out, 'subscribers/after-caller-changed-its-result', lambda: list(reg.subscribers((ob,), I1)))
+    a1 = reg.lookupAll([spec], I1)
+    a2 = reg.lookupAll([spec], I1)
+    out.append(('lookupAll/same-object-twice', a1 is a2, type(a1).__name__))
+    l1 = reg.lookup([spec], I1, '')
+    out.append(('lookup/same-object-twice', l1 is reg.lookup([spec], I1, ''), l1 is reg.lookup1(spec, I1, '')))
+    return out
+
+
 def prog_c05(arg):
     """One shard of C05's shape-enumerated histories (lookups interleaved with
     mutations on one live registry: this is where caches can go stale in one
@@ -448,7 +513,7 @@ def prog_c05(arg):
 
 
 PROGS = {'c05': prog_c05, 'names': prog_names, 'c04': prog_c04, 'c08': prog_c08, 'c14': prog_c14, 'c19': prog_c19, 'c20': prog_c20,
-         'odd': prog_odd}
+         'odd': prog_odd, 'shapes': prog_shapes}
 
 
 def run_programs(arg):
@@ -598,8 +663,9 @@ def run(ctx):
                          for sh in (('LML',) if quick else ('LML', 'WMWML')) for k in range(n5)]))
     sets.append(('odd', [0, 1, 2, 3]))
     sets.append(('names', [(f, w) for f in ('adapter', 'verifying') for w in (False, True)]))
+    sets.append(('shapes', [(f, w) for f in ('adapter', 'verifying') for w in (False, True)]))
     for kind, items in sets:
-        size = 1 if kind in ('odd', 'names', 'c05') else max(20, len(items) // (NPROC * 4))
+        size = 1 if kind in ('odd', 'names', 'shapes', 'c05') else max(20, len(items) // (NPROC * 4))
         parts = chunks(items, size)
         rc = ctx.map('c', 'run_programs', [(kind, p, kind == 'odd') for p in parts])
         rp = ctx.map('py', 'run_programs', [(kind, p, kind == 'odd') for p in parts])
